@@ -121,7 +121,7 @@ struct Run {
 		return ((g.coin() ? (1ull << (nbits - 1)) : 0) | e) & M;
 	}
 	static void random(uint64_t count) {
-		uv::Rng g(uv::seed_from_env() * 1000003ull + nbits * 131ull + rbits * 7ull + (B == 'W' ? 3 : 0) + UV_BT);
+		uv::Rng g(uv::seed_from_env() * 1000003ull + nbits * 131ull + rbits * 7ull + (B == 'W' ? 3 : 0));   // independent of the block type: C12 compares the same operands across block types
 		const uint64_t M = uv::mask(nbits), EM = uv::mask(nbits - 1), SB = 1ull << (nbits - 1);
 		for (uint64_t i = 0; i < count; ++i) {
 			uint64_t a = operand(g), b;
